@@ -332,9 +332,16 @@ def check_site(repo, col, cl: Classifier, rule, fi, kind, arr, idx, node, kcs=KC
     if arr.op == "sub":
         arr = T("sub", None, [strip_alias(repo, arr.args[0]), arr.args[1]], node=arr.node)
     n = 0
-    for kc in kcs:
-        d = cl.domain(arr, kc)
-        s = cl.space(idx, kc)
+    from sa import spaces as _sp
+    root = arr.args[0] if arr.op == "sub" else arr
+    _sp.KEY_KIND[0] = {"u": "state", "state": "state", "states": "state", "all_states": "state",
+                       "params": "param", "all_params": "param", "channel_params": "param"}.get(
+        root.name if root.op in ("param", "attr", "free") else None)
+    try:
+        spaces_ = [(kc, cl.domain(arr, kc), cl.space(idx, kc)) for kc in kcs]
+    finally:
+        _sp.KEY_KIND[0] = None
+    for kc, d, s in spaces_:
         if d is not None and s is None and os.environ.get("VERIF_DEBUG_SPACES"):
             print("UNKNOWN-SPACE", fi.qual if isinstance(fi, FuncInfo) else fi, kc, d, idx.short(100))
         if d is not None and s is None:
